@@ -306,7 +306,15 @@ class World:
 
     def _event(self, op, out, probe_idxs, extra=(), **kw):
         pt, ppt = self._probe(probe_idxs, extra)
-        ev = {"op": op, "out": out, "convs": [proj_conv(self.I, c) for c in self.convs], "pt": pt, "ppt": ppt}
+        # a converter whose whole projection (records, five indexes, views) is what it was after the previous event is
+        # written as {"same": true}: the validator re-uses the previous value
+        import json as _json
+        projs = [proj_conv(self.I, c) for c in self.convs]
+        keys = [_json.dumps(p, sort_keys=True) for p in projs]
+        last = getattr(self, "_last_keys", [])
+        convs = [({"same": True} if k < len(last) and last[k] == keys[k] else projs[k]) for k in range(len(projs))]
+        self._last_keys = keys
+        ev = {"op": op, "out": out, "convs": convs, "pt": pt, "ppt": ppt}
         ev.update(kw)
         self.events.append(ev)
         return ev
